@@ -510,7 +510,7 @@ class Interp:
             if T.is_boolish(a) and T.is_boolish(b):
                 return f(a, b)
             raise Unsupported("bitwise operator on numbers")
-        if isinstance(a, Arr) or isinstance(b, Arr):
+        if isinstance(a, (Arr, self.lib.MaskedSel)) or isinstance(b, (Arr, self.lib.MaskedSel)):
             return self.lib.ew(st, self.BINOPS[opname], a, b)
         if isinstance(a, str) and isinstance(b, str) and opname == "Add":
             return a + b
